@@ -48,6 +48,10 @@ type Effect struct {
 }
 
 type Contract struct {
+	AtReturns   []*Clause // hold at every return, may mention local variables in scope there
+	PrintfLike  bool // last two parameters are (format string, args ...interface{}); the message must be nlfree
+	Hints       []*Clause // ground instances of trusted mathematical lemmas, assumed at entry
+	Uses        []string    // named lemmas (trusted specification axioms) assumed at entry
 	BodyCalls   []*BodyCall // function level: the call is reached on a path to a return iff Cond
 	AtCalls     []*BodyCall // function level: holds at every call of Fn in the body
 	Effects     []*Effect
@@ -86,6 +90,7 @@ type Contracts struct {
 	NonNilField map[string]bool // "T.f"
 	NonNilElem  map[string]bool // type string of the slice/map type
 	NonNilBoxed map[string]bool // pointer types never boxed as typed nil in interfaces
+	NlfreeString map[string]bool // types whose %s/%v rendering never contains a line break
 	Specs       map[string]*SpecFunc
 	TypeInvs    []*TypeInv
 	FoldedKeys  map[string]bool // map type names whose keys are always lower-cased
@@ -94,6 +99,7 @@ type Contracts struct {
 	NlfreeField map[string]bool
 	Ghosts      map[string]string // name -> type
 	Axioms      []*Clause
+	Lemmas      map[string]*Clause
 	AutoEnsures [][2]string // (function regexp, clause text): candidates for the inference pass
 	AutoInvs    [][2]string // (function regexp, invariant text): candidate invariants for every loop of the functions
 	Files       []string
@@ -117,12 +123,14 @@ func loadContracts(dir string) (*Contracts, error) {
 		NonNilField: map[string]bool{},
 		NonNilElem:  map[string]bool{},
 		NonNilBoxed: map[string]bool{},
+		NlfreeString: map[string]bool{},
 		Specs:       map[string]*SpecFunc{},
 		FoldedKeys:  map[string]bool{},
 		FoldedField: map[string]bool{},
 		FoldedElems: map[string]bool{},
 		NlfreeField: map[string]bool{},
 		Ghosts:      map[string]string{},
+		Lemmas:      map[string]*Clause{},
 	}
 	files, _ := filepath.Glob(filepath.Join(dir, "verif_contracts_*.go"))
 	sort.Strings(files)
@@ -207,6 +215,14 @@ func (cs *Contracts) parseFile(file, src string) {
 		case "inline":
 			if cur != nil {
 				cur.Inline = true
+			}
+		case "at_return":
+			if cur == nil {
+				cs.errf(file, ln, "at_return outside func block")
+				continue
+			}
+			if c := mkClause("at_return"); c != nil {
+				cur.AtReturns = append(cur.AtReturns, c)
 			}
 		case "requires", "ensures":
 			if cur == nil {
@@ -334,6 +350,29 @@ func (cs *Contracts) parseFile(file, src string) {
 			}
 		case "endloop":
 			curLoop = nil
+		case "hint":
+			if cur != nil {
+				if c := mkClause("hint"); c != nil {
+					cur.Hints = append(cur.Hints, c)
+				}
+			}
+		case "uses":
+			if cur != nil {
+				cur.Uses = append(cur.Uses, strings.Fields(rest)...)
+			}
+		case "lemma":
+			j := strings.Index(rest, ":")
+			if j < 0 {
+				cs.errf(file, ln, "lemma needs 'name: expr'")
+				continue
+			}
+			ex, err := parseCExpr(strings.TrimSpace(rest[j+1:]))
+			if err != nil {
+				cs.errf(file, ln, "%v", err)
+				continue
+			}
+			cs.Lemmas[strings.TrimSpace(rest[:j])] = &Clause{Kind: "lemma", Expr: ex, Text: strings.TrimSpace(rest[j+1:]), File: file, Line: ln}
+			cur = nil
 		case "effect":
 			// effect g[key] = val [if cond]
 			if cur == nil {
@@ -422,6 +461,15 @@ func (cs *Contracts) parseFile(file, src string) {
 				cs.NlfreeField[f] = true
 			}
 			cur = nil
+		case "nlfree_string":
+			for _, f := range strings.Fields(rest) {
+				cs.NlfreeString[f] = true
+			}
+			cur = nil
+		case "printf_like":
+			if cur != nil {
+				cur.PrintfLike = true
+			}
 		case "spec":
 			// spec name(a: T, b: U): R
 			j := strings.Index(rest, "(")
